@@ -7,7 +7,7 @@ package main
 // visible to the obligation, path condition, goal) hashes to the same value, and only for a limited time
 // (GOVC_CACHE_TTL seconds, default 3600; 0 disables). Every run still loads /repo's current working tree, builds
 // SSA, reads the contracts and generates every verification condition anew; a changed function, contract or
-// engine yields different query text and is solved afresh. The thorough tier never reads the cache. Evidence
+// engine yields different query text and is solved afresh. The thorough tier only reads answers that thorough runs stored (its keys are kept apart). Evidence
 // reports the number of hits.
 
 import (
